@@ -15,6 +15,10 @@ Rule ==
     [] Ev.op = "r3" -> /\ Ev.res = "Ok" /\ Ev.wa = Ev.wb
                        /\ Ev.finite => Within(Ev.got, Ev.ref, Tol(Ev.fam))
     \* a call that consumed another number of words follows another construction: not judged (guard, counted by the check)
+    \* Triangular / Pert under a general (non-dyadic) affine map: same words, and the image within 2^12 ordinals (the corners of the
+    \* mapped distribution are rounded, so agreement is to about 1e-12 relative in f64 / 5e-4 in f32) where the image is not near zero
+    [] Ev.op = "r3t" -> /\ Ev.res = "Ok" /\ Ev.wa = Ev.wb
+                        /\ (Ev.finite /\ Ev.big) => Within(Ev.got, Ev.ref, 4096)
     [] Ev.op = "wire" -> /\ Ev.res = "Ok"
                          /\ Ev.gcls # "nan"                                  \* NaN is in no documented law, whatever the reference does
                          /\ (Ev.wa = Ev.wb) => (IF Ev.finite THEN Within(Ev.got, Ev.ref, WireTol(Ev.fam)) ELSE Ev.same_class)
